@@ -230,7 +230,6 @@ class StingyConfigurator(pg.All):
         super().__init__(*propositions, variable=id)
 
     @property
-    @functools.lru_cache
     def ge_polyhedron(self) -> pnd.ge_polyhedron_config:
 
         """
@@ -240,13 +239,18 @@ class StingyConfigurator(pg.All):
             -------
                 out : :class:`puan.ndarray.ge_polyhedron_config`
         """
-        ge_polyhedron = self.to_ge_polyhedron(True)
-        return pnd.ge_polyhedron_config(
-            ge_polyhedron, 
-            default_prio_vector=ge_polyhedron.A.construct(self.default_prios),
-            variables=ge_polyhedron.variables, 
-            index=ge_polyhedron.index, 
-        )
+        # cached per instance: a cache shared between instances would be keyed by __eq__/__hash__,
+        # which do not tell apart configurators that differ only in their variables' bounds
+        cached = self.__dict__.get("_ge_polyhedron")
+        if cached is None:
+            ge_polyhedron = self.to_ge_polyhedron(True)
+            cached = self.__dict__["_ge_polyhedron"] = pnd.ge_polyhedron_config(
+                ge_polyhedron, 
+                default_prio_vector=ge_polyhedron.A.construct(self.default_prios),
+                variables=ge_polyhedron.variables, 
+                index=ge_polyhedron.index, 
+            )
+        return cached
 
     @property
     def default_prios(self) -> typing.Dict[str, int]:
@@ -269,7 +273,6 @@ class StingyConfigurator(pg.All):
             )
         )
 
-    @functools.lru_cache
     def leafs(self) -> typing.List[puan.variable]:
 
         """
